@@ -171,9 +171,15 @@ class NativeVC:
 
         d = collections.defaultdict(default) if default is not None else {}
         for ent in self._get(name):
-            key = key_from_json(ent["key"]) if key_from_json is not None else self._any_from_json(ent["key"])
+            if ent["key"] == "<generated>":
+                key = gen_key(self, f"{name}.it{ent['n']}")  # found by the native search
+            else:
+                key = key_from_json(ent["key"]) if key_from_json is not None else self._any_from_json(ent["key"])
             d[key] = gen_value(self, f"{name}[{ent['n']}]", key)
         return d
+
+    def lazy_set(self, name, gen_key=None):
+        return set(self.lazy_dict(name, lambda vc, n, k: True, gen_key).keys())
 
     def copy(self, v):
         import copy
@@ -706,6 +712,16 @@ class GenVC(NativeVC):
                 ents.append({"n": j, "key": "<generated>"})
         self.model[name] = ents
         return d
+
+    def lazy_set(self, name, gen_key=None):
+        out = set()
+        ents = []
+        if gen_key is not None:
+            for j in range(self.rng.choice([0, 1, 1, 2, 3])):
+                out.add(gen_key(self, f"{name}.it{j}"))
+                ents.append({"n": j, "key": "<generated>"})
+        self.model[name] = ents
+        return out
 
     def seq(self, name, gen):
         n = self.rng.choice([0, 1, 1, 2, 3])
